@@ -1,3 +1,38 @@
-import XzVerif.Model.XzIo
+/-
+  C17 — xz never loses user data when I/O fails, a signal arrives or the process dies.
+  Theorems over the state-machine model of the file-pair protocol (Model/XzIo.lean).  `run c de n` is the state after
+  at most `n` system calls: quantifying over `n` covers every prefix of every run, i.e. every instant at which the
+  process may be killed.  All theorems hold for every option set, fault function, signal position, foreign rename,
+  source size and coder schedule (`c : Cfg α` is universally quantified).
+-/
+import XzVerif.Lemmas.XzIoStep
+
 namespace XzVerif.C17
+open XzVerif.XzIo
+variable {α : Type}
+
+/-- The source inode exists, or the target created by this run holds the complete coder output (and has been
+    fsync'ed, file and directory, when syncing is on).  Holds after every number of system calls = at every crash point. -/
+theorem src_or_complete_target (c : Cfg α) (hsp : SparseOk c.zero c.ops) (dstExists : Bool) (n : Nat) :
+    let s := run c dstExists n
+    s.fs.srcLinked = true ∨
+      (s.fs.ownLinked = true ∧ content s.fs.own = payload c.ops ∧ (c.o.syncEff = true → s.fs.durable = true)) := by
+  intro s
+  have i := inv_run hsp dstExists n
+  cases h : s.fs.srcLinked with
+  | true => exact Or.inl rfl
+  | false => exact Or.inr (i.srcGone h).2.2.2.2
+
+/-- The source is never removed with -k, -c, --test or when reading standard input, and only by a successful run. -/
+theorem src_kept_when_requested (c : Cfg α) (hsp : SparseOk c.zero c.ops) (dstExists : Bool) (n : Nat)
+    (h : c.o.keep = true ∨ c.o.stdout = true ∨ c.o.mode = .test ∨ c.o.stdin = true) :
+    (run c dstExists n).fs.srcLinked = true := by
+  have i := inv_run hsp dstExists n
+  cases hs : (run c dstExists n).fs.srcLinked with
+  | true => rfl
+  | false =>
+    obtain ⟨_, _, hk, hi, _⟩ := i.srcGone hs
+    simp [Opts.keepEff, Opts.toStdout] at hk
+    rcases h with h | h | h | h <;> simp_all
+
 end XzVerif.C17
